@@ -640,3 +640,82 @@ func runT14(c *load.Ctx, r *report.RuleResult) {
 		}
 	}
 }
+
+func init() {
+	register(&Rule{ID: "T-pairs", Min: 1, Run: runTPairs,
+		Doc: "paired bounds are checked on every node: checkPairConstraints, interpreted over an abstract node of every JSON kind with the three pair checks (min/max, minLength/maxLength, minItems/maxItems) as recorded effects, runs the pair that applies to a plain JSON kind and all three where the kind does not decide (rule-sets inside or are compiled on nodes of kind mixed)"})
+}
+
+func runTPairs(c *load.Ctx, r *report.RuleResult) {
+	e := newAbsNodeEnv(c)
+	if e.problem != "" {
+		r.Unk("anchor|schema.Node", "", e.problem)
+		return
+	}
+	pairs := []string{"schemaCompiler.checkMinAndMax", "schemaCompiler.checkMinLengthAndMaxLength", "schemaCompiler.checkMinItemsAndMaxItems"}
+	for _, n := range pairs {
+		f := c.Func(pkgLoader, n)
+		if f == nil {
+			r.Unk("anchor|"+n, "", "pair check not found")
+			return
+		}
+		name := n
+		e.cfg.Intrinsics[f.String()] = func(in *pe.Interp, args []pe.Value) (pe.Value, bool) {
+			in.Effect("pair " + name)
+			return pe.NilV{}, true
+		}
+	}
+	outs, pos, problem := e.callWithNode(pkgLoader, "schemaCompiler.checkPairConstraints", nil, nil)
+	if problem != "" {
+		r.Unk("anchor|schemaCompiler.checkPairConstraints", "", problem)
+		return
+	}
+	bad := false
+	for _, o := range outs {
+		if o.Undecided != "" || o.Panicked {
+			r.Unk("pairs|"+o.Valuation(), pos, "not interpretable: "+o.Exit())
+			bad = true
+			continue
+		}
+		// which pairs matter for this kind of node: the applicable one for a plain JSON kind (the other
+		// bounds are rejected there as not applicable), all of them where the kind does not decide
+		// (mixed / undefined: rule-sets of an or rule) and when the path did not ask for the kind
+		kind := o.ChoiceMap()["node.type"]
+		needed := map[string]bool{}
+		switch kind {
+		case "TypeInteger", "TypeFloat":
+			needed[pairs[0]] = true
+		case "TypeString":
+			needed[pairs[1]] = true
+		case "TypeArray":
+			needed[pairs[2]] = true
+		case "TypeObject", "TypeBoolean", "TypeNull":
+		default:
+			for _, n := range pairs {
+				needed[n] = true
+			}
+		}
+		var missing []string
+		for _, n := range pairs {
+			if !needed[n] {
+				continue
+			}
+			found := false
+			for _, ef := range o.Effects {
+				if ef == "pair "+n {
+					found = true
+				}
+			}
+			if !found {
+				missing = append(missing, strings.TrimPrefix(n, "schemaCompiler."))
+			}
+		}
+		if len(missing) > 0 {
+			bad = true
+			r.Bad("pairs|"+o.Valuation(), pos, fmt.Sprintf("on a node with {%s} the pair check(s) %s are not run: an inconsistent pair of bounds on such a node (for instance in a rule-set of an or rule, whose node is of kind mixed) is accepted", o.Valuation(), strings.Join(missing, ", ")))
+		}
+	}
+	if !bad {
+		r.OK("pairs|all three on every node", pos, fmt.Sprintf("%d path(s): min/max, minLength/maxLength and minItems/maxItems are all checked whatever the node is", len(outs)))
+	}
+}
